@@ -76,6 +76,9 @@ def gen_run_case(rng, solver, **kw):
     spec = mdpgen.gen_mdp(rng, family=fam, nS=kw.get("nS"), nA=kw.get("nA"), nE=kw.get("nE"), denom=denom,
                           rscale=kw.get("rscale", rng.choice([0, 0, 0, -2, 3])), init=kw.get("init") or rng.choice(["zero", "zero", "random"]),
                           with_init_policy=(solver == "pi" and rng.random() < 0.5))
+    if kw.get("neg_rewards"):
+        # every reward <= 0 with different magnitudes: value estimates DECREASE sweep by sweep (cost problems)
+        spec["rew"] = [[[str(-abs(F(x)) - (1 if kw["neg_rewards"] == "strict" else 0)) for x in row] for row in sa] for sa in spec["rew"]]
     case = {"solver": solver, "spec": spec, "g": str(g), "eps": str(kw.get("eps") or rng.choice([F(1, 4), F(1, 32), F(1, 1024), F(2), F(1, 2 ** 20)])),
             "mb": kw.get("mb") or solverun.pick_mb(rng, spec["nS"]),
             "ks": kw.get("ks") or rng.choice([[3], [6], [2, 3], [1, 1, 4], [8], [1], [12]])}
@@ -91,6 +94,31 @@ def gen_run_case(rng, solver, **kw):
         case["max_eval"] = kw.get("max_eval") or rng.choice([1, 3, 100])
         case["reset"] = kw.get("reset", rng.random() < 0.5)
     return case
+
+
+NEAR_ONE = F(2 ** 17 - 1, 2 ** 17)     # a discount factor within 1e-5 of one that is still a dyadic rational
+
+
+def directed(ctx, solver, quick=True):
+    """streams that ordinary sampling does not reach (each found by a seeded change that slipped through):
+    (a) gamma within 1e-5 of one - 'close to 1' must not be treated as 1; a huge epsilon makes an undiscounted threshold pass at
+        once while the documented threshold eps*(1-gamma)/gamma is far from met within the two sweeps that stay exact;
+    (b) cost problems (all rewards <= 0) under the max_diff test: all value changes are negative"""
+    out = []
+    k = 2 if quick else 12
+    if solver in ("vi", "pi", "savi"):
+        for t in ("span", "max_diff"):
+            kw = {"family": "det", "g": NEAR_ONE, "eps": F(64), "ks": [2], "test": t, "rscale": 0, "init": "zero"}
+            if solver == "pi":
+                kw["max_eval"] = 1
+            if solver == "savi":
+                kw["shuffle"] = False
+            out += generate(ctx, solver, k, max_tries=80, accept=lambda c, r: not r[-1]["converged"], **kw)
+        kw = {"test": "max_diff", "neg_rewards": "strict", "gammas": [F(1, 2), F(3, 4)], "ks": [30], "init": "zero", "eps": F(1, 32)}
+        if solver == "savi":
+            kw["shuffle"] = False
+        out += generate(ctx, solver, k, max_tries=120, accept=lambda c, r: r[-1]["converged"] and r[-1]["iteration"] >= 3, **kw)
+    return out
 
 
 def generate(ctx, solver, count, accept=None, max_tries=None, **kw):
